@@ -1,69 +1,12 @@
 (* The codec functions the fan-out calls on a published payload, taken from the
-   C19 models (coq/theories/Codec), with the two hevc record-parser fixes of C05
-   selected by [fixes]:
-     fx_hevcrec     parseVpsSpsPpsFromRecord refuses len(payload) < 33 (ErrHevc)
-     fx_hevcannexb  parseVpsSpsPpsAnnexbFromRecord skips an empty nalu
-   No proofs here. *)
+   C19 models (coq/theories/Codec); [fx_hevc] selects the hevc record parsers
+   before / after the two crash fixes of C05.  No proofs here. *)
 From Lal Require Export Media.MediaMsgChecked Media.MediaTsRemux Media.MediaRtspRemux Media.MediaBroadcast.
 From Lal Require Export Codec.CodecBits Codec.CodecSpsAvc Codec.CodecSpsHevc Codec.CodecAvcSeqHeader Codec.CodecHevcSeqHeader.
 Open Scope N_scope.
 
-(* parseVpsSpsPpsFromRecord *)
-Definition glue_hevc_record (fx : fixes) (p : bytes) : res (bytes * bytes * bytes) :=
-  if fx_hevcrec fx && (lenN p <? 33) then Err err_hevc else hevc_parse_record p.
-
-(* parseVpsSpsPpsAnnexbFromRecord, the C19 loop with the empty-nalu case selected by [skip] *)
-Fixpoint glue_annexb_loop (skip : bool) (fuel : nat) (p : bytes) (i : N) (acc : bytes * bytes * bytes)
-  : res (bytes * bytes * bytes) :=
-  if negb (i + 4 <? lenN p) then Ok acc
-  else match fuel with
-  | O => Err err_out_of_fuel
-  | S f =>
-    match index_sc4 (skipn (N.to_nat i) p) 0 with
-    | None => Ok acc
-    | Some start =>
-      let i := i + start in
-      let e := match index_sc4 (skipn (N.to_nat (i + 4)) p) 0 with
-               | Some k => k + 4
-               | None => lenN p - i
-               end in
-      let nal := firstn (N.to_nat (e - 4)) (skipn (N.to_nat (i + 4)) p) in
-      match nal with
-      | [] => if skip then glue_annexb_loop skip f p (i + e) acc else Panic site_hevc_annexb_nal0
-      | b :: _ =>
-        let typ := N.land b 126 / 2 in
-        let '(v, s, q) := acc in
-        let acc' := if typ =? 32 then (v ++ nal, s, q)
-                    else if typ =? 33 then (v, s ++ nal, q)
-                    else if typ =? 34 then (v, s, q ++ nal)
-                    else acc in
-        glue_annexb_loop skip f p (i + e) acc'
-      end
-    end
-  end.
-
-Definition glue_hevc_annexb (fx : fixes) (p : bytes) : res (bytes * bytes * bytes) :=
-  let* (v, s, q) := glue_annexb_loop (fx_hevcannexb fx) (length p) p 0 ([], [], []) in
-  match v, s, q with
-  | _ :: _, _ :: _, _ :: _ => Ok (v, s, q)
-  | _, _, _ => Err err_hevc
-  end.
-
-(* ParseVpsSpsPpsFromSeqHeader(WithoutMalloc) *)
-Definition glue_hevc_parse (fx : fixes) (p : bytes) : res (bytes * bytes * bytes) :=
-  if lenN p <? 5 then Err err_short
-  else if negb ((nth 0 p 0 =? 28) && (nth 1 p 0 =? 0) && (nth 2 p 0 =? 0)
-                && (nth 3 p 0 =? 0) && (nth 4 p 0 =? 0)) then Err err_hevc
-  else if lenN p <? 33 then Err err_hevc
-  else match glue_hevc_record fx p with
-       | Err _ => glue_hevc_annexb fx p
-       | r => r
-       end.
-
-(* ParseVpsSpsPpsFromEnhancedSeqHeader *)
-Definition glue_hevc_parse_enh (fx : fixes) (p : bytes) : res (bytes * bytes * bytes) :=
-  let* b := CodecHevcSeqHeader.idx p 0 in
-  if N.land b 15 =? 0 then glue_hevc_record fx p else Err err_hevc.
+Definition glue_hevc_parse (fx : fixes) : bytes -> res (bytes * bytes * bytes) := hevc_parse_seq_header_f (fx_hevc fx).
+Definition glue_hevc_parse_enh (fx : fixes) : bytes -> res (bytes * bytes * bytes) := hevc_parse_enhanced_seq_header_f (fx_hevc fx).
 
 Definition glue_annexb3 (r : res (bytes * bytes * bytes)) : res bytes :=
   let* (v, s, q) := r in Ok (hsc4 ++ v ++ hsc4 ++ s ++ hsc4 ++ q).
